@@ -2,6 +2,19 @@
 
 use super::util::{connack_props, rand_cfg, rand_publish, rand_subscribe, rand_unsubscribe};
 use super::{ConnSpec, Drv, Out, Sp};
+use crate::parse::PropSpec;
+
+/// CONNACK properties with a small Receive Maximum in half of the cases.
+fn flow_connack(d: &mut Drv, rx: usize) -> Vec<PropSpec> {
+    let mut props = connack_props(&mut d.rng, rx, false);
+    if d.rng.pct(50) {
+        props.retain(|p| !matches!(p, PropSpec::U16(0x21, _)));
+        let at = d.rng.below(props.len() as u64 + 1) as usize;
+        props.insert(at, PropSpec::U16(0x21, *d.rng.pick(&[1, 2, 3])));
+        props = super::util::fit_connack(props, rx);
+    }
+    props
+}
 
 /// Issue an operation and run it to some random extent.
 fn issue(d: &mut Drv, line: &str) {
@@ -13,7 +26,7 @@ fn issue(d: &mut Drv, line: &str) {
 }
 
 fn reconnect(d: &mut Drv, rx: usize) {
-    let mut props = connack_props(&mut d.rng, rx, false);
+    let mut props = flow_connack(d, rx);
     // A refused or strange CONNACK once in a while.
     let rc = if d.rng.pct(6) { *d.rng.pick(&[0x80u8, 0x87, 0x8a, 0x95]) } else { 0 };
     if rc != 0 {
@@ -28,9 +41,10 @@ pub fn flow(out: &mut Out, count: u64) {
         let mut rng = out.rng(idx);
         let cfg = rand_cfg(&mut rng);
         let mut d = Drv::new(&cfg, rng);
-        d.broker.fail_pct = *d.rng.pick(&[0, 0, 10, 30]);
+        d.broker.fail_pct = 10;
+        d.broker.rc10_pct = 15;
         d.broker.fancy_pct = *d.rng.pick(&[0, 30, 60]);
-        let props = connack_props(&mut d.rng, cfg.rx, false);
+        let props = flow_connack(&mut d, cfg.rx);
         d.connect(&ConnSpec::with(props));
         let actions = d.rng.range(5, 36);
         let mut reconnects = 0;
@@ -49,6 +63,20 @@ pub fn flow(out: &mut Out, count: u64) {
                     let qos = d.rng.below(3) as u8;
                     let line = rand_publish(&mut d.rng, qos, cfg.tx).text();
                     issue(&mut d, &line);
+                    // With a full window keep trying: refusals and over-acceptance show up.
+                    let full = d.live()
+                        && (d.interp().verif_state().send_quota == 0
+                            || d.saw("ret publish err NotReady")
+                            || d.saw("ret publish err Resource.InflightExhausted"));
+                    if full {
+                        for _ in 0..d.rng.range(1, 2) {
+                            let qos = 1 + d.rng.below(2) as u8;
+                            let mut p = rand_publish(&mut d.rng, qos, cfg.tx);
+                            p.payload = "78".into();
+                            d.x(&p.text());
+                            d.go();
+                        }
+                    }
                 }
                 1 => {
                     let line = rand_subscribe(&mut d.rng);
